@@ -20,6 +20,16 @@ CONSTANTS XMode
 FE(n, as, pkg) == [name |-> n, as |-> as, pkg |-> pkg]
 XEntry(n, defs, cons, fs) == [schema |-> [defs |-> defs, root |-> "Root"], leaf |-> n, pos |-> "c12", cons |-> cons, foreign |-> fs]
 
+\* schema transformations of the pipeline file (the object selector is spelled as the configuration spells it)
+PSetEntry(obj)    == [k |-> "schema_set_entry_point", obj |-> obj, to |-> ""]
+PRename(from, to) == [k |-> "rename_object", obj |-> from, to |-> to]
+PEntry(n, passes, rootAs) ==
+  XEntry(n, <<
+    Def("Root", TStruct(<<F("v", TRef("Node")), FOpt("vs", TArr(TRef("Node"))), FOpt("m", TMap(TRef("Node"))),
+                          FOpt("k", TRef("Kind")), FOpt("self", TRef("Root")), F("w", TStr(-1, -1))>>)),
+    Def("Node", TStruct(<<F("n", TInt("int64", Ge(0), NoB)), FOpt("next", TRef("Node")), FOpt("k", TRef("Kind"))>>)),
+    Def("Kind", TEnum(<<"x", "y">>))>>, TRUE, <<>>) @@ [passes |-> passes, rootAs |-> rootAs]
+
 XChild == Def("XChild", TStruct(<<F("cid", TInt("int64", Ge(1), NoB)), FOpt("tag", TStr(-1, 2))>>))
 XKind  == Def("XKind", TEnum(<<"x", "y">>))
 
@@ -130,7 +140,26 @@ XList == <<
   XEntry("fractional-bounds-inclusive", <<
     Def("Root", TStruct(<<F("ige", TInt("int64", Ge10(5), NoB)), F("ile", TInt("int64", NoB, Le10(-5))),
                           FOpt("ige2", TInt("int64", Ge10(-15), NoB)), FOpt("ile2", TInt("int64", NoB, Le10(15))),
-                          F("n", TNum("float64", Ge10(5), Le10(15))), F("w", TStr(-1, -1))>>))>>, TRUE, <<>>)
+                          F("n", TNum("float64", Ge10(5), Le10(15))), F("w", TStr(-1, -1))>>))>>, TRUE, <<>>),
+  \* names of objects and of fields that differ ONLY by letter case or by separators: IR names are case- and
+  \* separator-sensitive, every one of them is an object / a field of its own ("under its own name")
+  XEntry("names-case-variants", <<
+    Def("Root", TStruct(<<F("a", TRef("panelOptions")), F("b", TRef("PanelOptions")), FOpt("c", TRef("panel_options")),
+                          F("ks", TArr(TRef("kind"))), FOpt("k", TRef("Kind")), F("w", TStr(-1, -1))>>)),
+    Def("panelOptions", TStruct(<<F("fooBar", TStr(1, -1)), FOpt("FooBar", TInt("int64", Ge(0), NoB)), F("foo_bar", TBool)>>)),
+    Def("PanelOptions", TStruct(<<F("n", TInt("int64", Ge(0), NoB))>>)),
+    Def("panel_options", TStruct(<<FOpt("s", TStr(-1, 2))>>)),
+    Def("kind", TEnum(<<"a", "b">>)), Def("Kind", TEnum(<<"x", "y">>))>>, TRUE, <<>>),
+  \* the pipeline CONFIGURATION belongs to the universe: schema transformations (compiler passes of the pipeline file) that
+  \* name objects - the entry point is set, an object (the entry point / a referenced object) is renamed, the selector
+  \* spelled exactly, in lower case, in upper case (selectors of compiler passes match object names case-insensitively).
+  \* `rootAs` is the name the root object carries after the passes.
+  PEntry("pass-rename-entry-exact", <<PSetEntry("Root"), PRename("Root", "Board")>>, "Board"),
+  PEntry("pass-rename-entry-lower", <<PSetEntry("Root"), PRename("root", "Board")>>, "Board"),
+  PEntry("pass-rename-entry-upper", <<PSetEntry("Root"), PRename("ROOT", "Board")>>, "Board"),
+  PEntry("pass-rename-child-lower", <<PSetEntry("Root"), PRename("node", "Item")>>, "Root"),
+  PEntry("pass-rename-child-upper-then-entry", <<PSetEntry("Root"), PRename("NODE", "Item"), PRename("rooT", "Board")>>, "Board"),
+  PEntry("pass-set-entry-only", <<PSetEntry("Root")>>, "Root")
 >>
 
 (* ------------------ thorough tier only: three packages, aliases, mutual recursion, defaults, grids ------------------ *)
@@ -334,7 +363,9 @@ XInit == CASE XMode = "index" -> si \in DOMAIN AllCat /\ dx = Marker
 IndexLine(i) ==
   LET e == EntryAt(i) IN
   PrintT(<<"INDEX", ToJson([id |-> i, leaf |-> e.leaf, pos |-> e.pos, cons |-> e.cons, schema |-> e.schema, foreign |-> e.foreign,
-                            inter |-> IF "inter" \in DOMAIN e THEN e.inter ELSE <<>>])>>)
+                            inter |-> IF "inter" \in DOMAIN e THEN e.inter ELSE <<>>,
+                            passes |-> IF "passes" \in DOMAIN e THEN e.passes ELSE <<>>,
+                            rootAs |-> IF "rootAs" \in DOMAIN e THEN e.rootAs ELSE e.schema.root])>>)
 XNext == CASE XMode = "sim" /\ si = 0 -> si' \in (Len(AllCat) + 1)..(Len(AllCat) + NBig) /\ dx' = dx
            \* printed from the ACTION: TLC evaluates it for the drawn state only (invariants are evaluated on every candidate)
            [] XMode = "sim" /\ si # 0 /\ dx = Marker -> IndexLine(si) /\ si' = si /\ dx' = [dx EXCEPT !.f = "drawn"]
